@@ -229,14 +229,16 @@ def check_case(ctx, case):
         if case['method'] != 'LM':
             kw['method'] = case['method']
             kw['tol'] = 1e-12
+        # switches as users hand them over: python bool, numpy bool (result of a comparison), int
+        truthy = [True, np.True_, 1, True][(case['seed'] // 7) % 4]
         if case['correlated']:
-            kw['correlated_fit'] = True
+            kw['correlated_fit'] = truthy
         if case['num_grad']:
             kw['num_grad'] = True
         if priors_arg is not None:
             kw['priors'] = priors_arg
         if case.get('exp_chisq') and not case['correlated'] and priors_arg is None and not case.get('via_corr'):
-            kw['expected_chisquare'] = True
+            kw['expected_chisquare'] = truthy
         if case.get('guess') is not None:
             # the starting point of the minimiser is not part of the answer of a linear fit
             kw['initial_guess'] = [truth[i] * case['guess'] + 0.1 * (i + 1) * (case['guess'] - 1.0) for i in range(npar)]
